@@ -208,6 +208,7 @@ func rejectOK(o []byte, seqVal []byte, seqUsable bool) bool {
 // params: [role, pre (0 not logged, 1 logged), msgKind, damage, seqClass, extra (0 none, 1 also drop MsgSeqNum), follow]
 func H_C16_reject() {
 	role, pre, kind, dmg := zz.Param(0), zz.Param(1), zz.Param(2), zz.Param(3)
+	fxRelog = zz.Param(6) // 1: the logged-on pre-state is that of a second logon on the same session
 	zz.Class("kind=" + strconv.Itoa(kind) + "/dmg=" + strconv.Itoa(dmg) + "/pre=" + strconv.Itoa(pre) + "/role=" + strconv.Itoa(role))
 	st := memory.NewStorage()
 	var f *fx
